@@ -8,12 +8,16 @@ use crate::logs::HasLogger;
 use crate::storage::FileManager;
 use crate::{AccountSync, EndpointSync};
 use acme_common::error::Error;
+#[cfg(feature = "breard_r_acmed_verif")]
+use crate::verif::RwLock;
+#[cfg(not(feature = "breard_r_acmed_verif"))]
 use async_lock::RwLock;
 use futures::stream::FuturesUnordered;
 use futures::StreamExt;
 use std::collections::HashMap;
 use std::sync::Arc;
 use std::time::Duration;
+#[cfg_attr(feature = "breard_r_acmed_verif", allow(unused_imports))]
 use tokio::time::sleep;
 
 pub struct MainEventLoop {
@@ -157,10 +161,18 @@ impl MainEventLoop {
 
 	pub async fn run(&mut self) {
 		let mut renewals = FuturesUnordered::new();
+		#[cfg(feature = "breard_r_acmed_verif")]
+		crate::verif::set_nb_certs(self.certificates.len());
 		for (_, crt) in self.certificates.iter_mut() {
 			log::trace!("Adding certificate: {}", crt.get_id());
 			if let Some(acc) = self.accounts.get(&crt.account_name) {
 				if let Some(ept) = self.endpoints.get(&crt.endpoint_name) {
+					#[cfg(feature = "breard_r_acmed_verif")]
+					renewals.push(crate::verif::tagged(
+						crt.get_id(),
+						renew_certificate(crt, acc.clone(), ept.clone()),
+					));
+					#[cfg(not(feature = "breard_r_acmed_verif"))]
 					renewals.push(renew_certificate(crt, acc.clone(), ept.clone()));
 				}
 			}
@@ -171,6 +183,12 @@ impl MainEventLoop {
 				return;
 			}
 			if let Some((crt, acc, ept)) = renewals.next().await {
+				#[cfg(feature = "breard_r_acmed_verif")]
+				renewals.push(crate::verif::tagged(
+					crt.get_id(),
+					renew_certificate(crt, acc, ept),
+				));
+				#[cfg(not(feature = "breard_r_acmed_verif"))]
 				renewals.push(renew_certificate(crt, acc, ept));
 			}
 		}
@@ -184,14 +202,33 @@ async fn renew_certificate(
 ) -> (&mut Certificate, AccountSync, EndpointSync) {
 	let backoff = [60, 10 * 60, 100 * 60, 24 * 60 * 60];
 	let mut scheduling_retries = 0;
+	#[cfg(feature = "breard_r_acmed_verif")]
+	crate::verif::attempt_gate(&certificate.get_id()).await;
 	loop {
 		match certificate.schedule_renewal().await {
 			Ok(duration) => {
+				#[cfg(feature = "breard_r_acmed_verif")]
+				crate::verif::emit(
+					"Scheduled",
+					serde_json::json!({"ms": duration.as_millis() as u64}),
+				);
+				#[cfg(feature = "breard_r_acmed_verif")]
+				crate::verif::on_sleep("schedule", duration).await;
+				#[cfg(not(feature = "breard_r_acmed_verif"))]
 				sleep(duration).await;
 				break;
 			}
 			Err(e) => {
 				certificate.warn(&e.message);
+				#[cfg(feature = "breard_r_acmed_verif")]
+				crate::verif::emit("SchedErr", serde_json::json!({"error": e.message}));
+				#[cfg(feature = "breard_r_acmed_verif")]
+				crate::verif::on_sleep(
+					"sched_backoff",
+					Duration::from_secs(backoff[scheduling_retries.min(backoff.len() - 1)]),
+				)
+				.await;
+				#[cfg(not(feature = "breard_r_acmed_verif"))]
 				sleep(Duration::from_secs(
 					backoff[scheduling_retries.min(backoff.len() - 1)],
 				))
@@ -200,6 +237,8 @@ async fn renew_certificate(
 			}
 		}
 	}
+	#[cfg(feature = "breard_r_acmed_verif")]
+	crate::verif::emit("ReqStart", serde_json::json!({}));
 	let (status, is_success) =
 		match request_certificate(certificate, account_s.clone(), endpoint_s.clone()).await {
 			Ok(_) => ("success".to_string(), true),
@@ -209,6 +248,11 @@ async fn renew_certificate(
 				(e.message, false)
 			}
 		};
+	#[cfg(feature = "breard_r_acmed_verif")]
+	crate::verif::emit(
+		"ReqEnd",
+		serde_json::json!({"is_success": is_success, "status": status}),
+	);
 	match certificate
 		.call_post_operation_hooks(&status, is_success)
 		.await
@@ -219,5 +263,24 @@ async fn renew_certificate(
 			certificate.warn(&e.message);
 		}
 	};
+	#[cfg(feature = "breard_r_acmed_verif")]
+	crate::verif::emit(
+		"AttemptEnd",
+		serde_json::json!({"is_success": is_success}),
+	);
 	(certificate, account_s.clone(), endpoint_s.clone())
+}
+
+#[cfg(feature = "breard_r_acmed_verif")]
+impl MainEventLoop {
+	#[allow(clippy::type_complexity)]
+	pub fn verif_parts(
+		&self,
+	) -> (
+		&HashMap<String, Certificate>,
+		&HashMap<String, AccountSync>,
+		&HashMap<String, EndpointSync>,
+	) {
+		(&self.certificates, &self.accounts, &self.endpoints)
+	}
 }
